@@ -18,6 +18,7 @@ mod c02;
 mod c19;
 mod c20;
 mod civ;
+mod text;
 mod tzcorpus;
 mod tzd;
 mod tzread;
@@ -67,12 +68,13 @@ fn dispatch(driver: &str, a: &Args) {
         "c02" => c02::run(&a),
         "c03" => tzd::run_c03(&a),
         "c07" => civ::run_c07(&a),
+        "c09" => text::run_c09(&a),
         "c12" => val::run(&a),
         "c19replay" => c19::run_replay(&a),
         "c20" => c20::run(&a),
         "c20fixed" => c20::run_fixed(&a),
         "c19stress" => c19::run_stress(&a),
-        "c06" | "c07z" | "c10z" | "c13" => zd::run_zoned(&a, driver),
+        "c06" | "c07z" | "c09z" | "c10z" | "c13" => zd::run_zoned(&a, driver),
         "c08" => civ::run_c08(&a),
         "c10" => civ::run_c10(&a),
         "c04" => tzd::run_c04(&a),
